@@ -91,8 +91,7 @@ def run(repo: Repo, chk: Check, thorough: bool = False) -> None:
         tw = cfg.dominating_tests(cfg.stmt_of(warn[0]))
         ts = cfg.dominating_tests(store[0])
         act = {t.id for n in vpp.walk() if isinstance(n, ast.Assign) and n.value in look for t in n.targets if isinstance(t, ast.Name)}
-        ok = any(pol and isinstance(t, ast.UnaryOp) and norm(t.operand) in act for t, pol in tw) and \
-            any((not pol) and isinstance(t, ast.UnaryOp) and norm(t.operand) in act for t, pol in ts)
+        ok = any((not pol) and norm(t) in act for t, pol in tw) and any(pol and norm(t) in act for t, pol in ts)
     chk.ob('R20.2', f'{CP}.ValidatorParser.parse :: unknown key -> warning, not forwarded', ok,
            'if not action: warnings.warn(...) else: new_data[key] = value' if ok else 'unknown keys are no longer warned about and dropped', vpp.loc)
     rets = [n for n in vpp.walk() if isinstance(n, ast.Return)]
